@@ -752,6 +752,19 @@ func palindromeState(f *ssa.Function) (int, string) {
 			((a.T.Args[0].isParam(0) && a.T.Args[1].String() == "call[poly/transform.ReverseComplement](param[0])") || (a.T.Args[1].isParam(0) && a.T.Args[0].String() == "call[poly/transform.ReverseComplement](param[0])")):
 			// the very comparison the property names, made with a weaker equality
 			return broken, "IsPalindromic compares the sequence with its reverse complement case-insensitively (EqualFold): \"aT\" is reported palindromic although its reverse complement is \"At\"; reverse complement preserves case, so the property's equality is exact"
+		case a.T.isBin("==") && len(a.T.Args) == 2 && func() bool {
+			// the comparison is made, but on a copy of the sequence that a library function has cut or respelt
+			// (Trim, TrimSpace, ToUpper ...): flanks or case that the sequence has and the copy has not decide it
+			x, y := a.T.Args[0], a.T.Args[1]
+			if y.isCall("poly/transform.ReverseComplement") {
+				x, y = y, x
+			}
+			if !x.isCall("poly/transform.ReverseComplement") || len(x.Args) != 1 || x.Args[0].String() != y.String() {
+				return false
+			}
+			return y.Op == "call" && strings.HasPrefix(y.Name, "strings.") && y.Name != "strings.Clone" && len(y.Args) >= 1 && y.Args[0].isParam(0) && len(opaqueParts(y, nil)) == 0
+		}():
+			return broken, "IsPalindromic compares a rewritten copy of the sequence with that copy's reverse complement (" + short(a.T.String()) + "): what the library call takes off or respells (flanking letters, letter case) is part of the sequence the property speaks of"
 		default:
 			st = unknown
 			why = "IsPalindromic is " + short(a.T.String())
